@@ -241,7 +241,7 @@ theorem singleVersion_of_listing (db : Db) (hns : NoUnsetup db) (top : Prod) (ou
 
 section Examples
 private def s (x : String) : Str := Str.ofString x
-private def req (n : String) (v : Option String := none) : Dep := ⟨false, false, s n, v.map s, false⟩
+private def req (n : String) (v : Option String := none) : Dep := ⟨false, false, s n, v.map s, false, false⟩
 
 /-- a diamond `r → {a, b} → c`, `c` needing the undeclared `zz` -/
 def diamond : Db :=
@@ -283,8 +283,8 @@ theorem C13_topological_two_versions_witness :
 
 section PinnedExamples
 private def s' (x : String) : Str := Str.ofString x
-private def req' (n : String) (v : Option String := none) : Dep := ⟨false, false, s' n, v.map s', false⟩
-private def opt' (n : String) (v : Option String := none) : Dep := ⟨false, true, s' n, v.map s', false⟩
+private def req' (n : String) (v : Option String := none) : Dep := ⟨false, false, s' n, v.map s', false, false⟩
+private def opt' (n : String) (v : Option String := none) : Dep := ⟨false, true, s' n, v.map s', false, false⟩
 
 /-- corpus/C13/d18_placeholder_versions.json -/
 def d18 : Db :=
